@@ -703,30 +703,34 @@ def r12(c):
 
 @rule('C01', 'R01.13', 'bit packing of read-coil replies: one cleared accumulator per byte, bit i at 1 << i, partial byte flushed last')
 def r13(c):
-    from rules.c03 import bit_packing_rule
+    from rules.c03 import bit_packing_rule, packing_vars, user_local_of
     path = '<rodbus::server::response::BitWriter<T> as rodbus::common::traits::Serialize>::serialize'
-    bit_packing_rule(c, path, 'acc', 'num_bits')
+    bit_packing_rule(c, path)
     P = c.P
     b = P.fn(path)
     w8 = b.calls('scursor::write::WriteCursor::write_u8')
-    tail = [cs for cs in w8 if not b.in_cycle(cs.node) and 'acc' in q.chain_names(b, cs.args[1])]
+    looped, acc_l, pos_l = packing_vars(b)
+
+    def is_pos(o):
+        s_ = q.sem(b, o)
+        return pos_l is not None and s_.kind == 'place' and s_.local == pos_l and not s_.proj
+    tail = [cs for cs in w8 if not b.in_cycle(cs.node) and acc_l is not None and user_local_of(b, cs.args[1]) == acc_l]
     facts = q.cmp_facts(b)
-    ok = len(tail) == 1 and q.has_fact(b, tail[0].node, 'lt', lambda o: q.const_val(b, o) == 0, lambda o: 'num_bits' in q.chain_names(b, o), facts)
-    c.ob('partial-byte', ok, 'after the loop a last partial byte is written iff num_bits > 0', '%d trailing writes' % len(tail), loc_of(b))
-    first = [cs for cs in w8 if not b.in_cycle(cs.node) and 'num_bytes' in q.chain_names(b, cs.args[1])]
+    ok = len(tail) == 1 and q.has_fact(b, tail[0].node, 'lt', lambda o: q.const_val(b, o) == 0, is_pos, facts)
+    c.ob('partial-byte', ok, 'after the loop a last partial byte is written iff the bit position is > 0', '%d trailing writes' % len(tail), loc_of(b))
+    first = [cs for cs in w8 if not b.in_cycle(cs.node) and cs not in tail]
     okf = len(first) == 1 and all(b.dominates(first[0].node, o.node) for o in w8)
     if okf:
         s = q.sem(b, first[0].args[1])
         okf = s.kind == 'call' and s.cs.is_('rodbus::common::serialize::calc_bytes_for_bits') and s.checked
     c.ob('byte-count-first', okf, 'the byte count (checked calc_bytes_for_bits) is written before any data', '', loc_of(b))
     # flush when 8 bits are collected
-    looped = [cs for cs in w8 if b.in_cycle(cs.node)]
     if looped:
-        okh = q.has_fact(b, looped[0].node, 'eq', lambda o: 'num_bits' in q.chain_names(b, o), lambda o: q.const_val(b, o) == 8, facts)
+        okh = q.has_fact(b, looped[0].node, 'eq', is_pos, lambda o: q.const_val(b, o) == 8, facts)
         c.ob('flush-at-8', okh, 'the accumulator is flushed when 8 bits have been merged', '', looped[0].loc())
     rw = P.fn('<rodbus::server::response::RegisterWriter<T> as rodbus::common::traits::Serialize>::serialize')
     w = [cs for cs in rw.calls('scursor::write::WriteCursor::write_u16_be') if rw.in_cycle(cs.node)]
-    okr = len(w) == 1 and bool(q.outcomes(rw, w[0]).get('success')) and 'value' in q.chain_names(rw, w[0].args[1])
+    okr = len(w) == 1 and bool(q.outcomes(rw, w[0]).get('success')) and any(y[0] == 'call' and y[1] == 'indirect' or (y[0] == 'call' and 'call' in str(y[1])) for y in rw.op_closure(w[0].args[1]))
     c.ob('registers', okr, 'each register value obtained from the handler is written big-endian, checked, in address order', '%d looped writes' % len(w), loc_of(rw))
 
 
